@@ -504,8 +504,12 @@ var differs = []differ{
 		if m == nil || len(m.Adjustments) == 0 || len(m.Adjustments[0].With) == 0 {
 			return false
 		}
-		k, _ := anyKey(m.Adjustments[0].With)
-		m.Adjustments[0].With[k] += "!"
+		ks := make([]string, 0)
+		for k := range m.Adjustments[0].With {
+			ks = append(ks, k)
+		}
+		sort.Strings(ks)
+		m.Adjustments[0].With[rapid.SampledFrom(ks).Draw(t, "withkey")] += "!"
 		return true
 	}},
 	{"int-to-string-in-config", func(t *rapid.T, w *world) bool {
